@@ -4,10 +4,10 @@ nested-loop interpreter (documented semantics of lfor/sfor/dfor/gfor/for, docs/a
 Expressions (tuples):
   ("n", k) | ("v", key, x)  logged reference (lg key x) | ("+", a, b) | ("<", a, b)
   ("setx", x, e) | ("lgv", key, e)  (lg key e) | ("stm", key, e)  (do (lg key 0) e): leaves a statement
-  ("list", [e ...]) | ("range", k)
+  ("list", [e ...]) | ("range", k) | ("ncomp", x, k, e)  a nested form (lfor x (range k) e)
 Targets: a name x | ("tup", kind, [x | ("star", x) ...])   kind "#(" or "[": #(a #* b) / [a #* b]
 Clauses: ("for", target, iterable) | ("if", e) | ("setv", x, e) | ("do", e) | ("dobrk", e)  :do (when e (break))
-         | ("docnt", e)  :do (when e (continue))
+         | ("docnt", e)  :do (when e (continue)) | ("dosetv", x, e)  :do (setv x e), x a variable of the form
 Forms:
   ("comp", kind, clauses, final)   kind in lfor sfor gfor dfor;
       final = ("val", e) | ("star", e_list) | ("kv", ek, ev) | ("dstar", ek, ev)   #** {ek ev}
@@ -41,6 +41,8 @@ def rx(e):
         return "[%s]" % " ".join(rx(a) for a in e[1])
     if k == "range":
         return "(range %d)" % e[1]
+    if k == "ncomp":
+        return "(lfor %s (range %d) %s)" % (e[1], e[2], rx(e[3]))
     raise ValueError(e)
 
 
@@ -96,6 +98,8 @@ def rclause(c):
         return ":do (when %s (break))" % rx(c[1])
     if k == "docnt":
         return ":do (when %s (continue))" % rx(c[1])
+    if k == "dosetv":
+        return ":do (setv %s %s)" % (c[1], rx(c[2]))
     raise ValueError(c)
 
 
@@ -179,10 +183,13 @@ class Ref:
             self.outer[x] = k
 
     def read(self, own, x):
-        if own is not None and x in own["names"]:
-            if x not in own["vars"]:
-                raise Unbound(x)
-            return own["vars"][x]
+        o = own
+        while o is not None:
+            if x in o["names"]:
+                if x not in o["vars"]:
+                    raise Unbound(x)
+                return o["vars"][x]
+            o = o.get("parent")
         if x in self.outer:
             if self.scope == "class" and own is not None:
                 # a comprehension in a class body is a function scope: class-level names are not
@@ -209,8 +216,11 @@ class Ref:
             return self.ev(e[1], own) < self.ev(e[2], own)
         if k == "setx":
             v = self.ev(e[2], own)
-            if own is not None and e[1] in own["names"]:
-                raise NoClaim("setx to an iteration or :setv variable of the form")
+            o = own
+            while o is not None:
+                if e[1] in o["names"]:
+                    raise NoClaim("setx to an iteration or :setv variable of the form")
+                o = o.get("parent")
             if own is not None and self.scope == "class":
                 raise NoClaim("setx inside a comprehension in a class body (CPython forbids it)")
             self.outer[e[1]] = v
@@ -226,6 +236,14 @@ class Ref:
             return [self.ev(a, own) for a in e[1]]
         if k == "range":
             return range(e[1])
+        if k == "ncomp":
+            # a nested form: its variable is its own; setx inside it assigns in the enclosing scope
+            inner = {"names": {e[1]}, "vars": {}, "parent": own}
+            out = []
+            for i in range(e[2]):
+                inner["vars"][e[1]] = i
+                out.append(self.ev(e[3], inner))
+            return out
         raise ValueError(e)
 
     # the documented nested loop, as a generator of elements (lazy)
@@ -258,6 +276,9 @@ class Ref:
             yield from self.loop(rest, own, final)
         elif k == "do":
             self.ev(c[1], own)
+            yield from self.loop(rest, own, final)
+        elif k == "dosetv":
+            own["vars"][c[1]] = self.ev(c[2], own)
             yield from self.loop(rest, own, final)
         elif k == "dobrk":
             if self.ev(c[1], own):
@@ -360,6 +381,9 @@ class Ref:
             elif k == "do":
                 self.ev(c[1], None)
                 go(i + 1)
+            elif k == "dosetv":
+                assign(c[1], self.ev(c[2], None))
+                go(i + 1)
             elif k in ("dobrk", "docnt"):
                 if self.ev(c[1], None):
                     raise (Brk if k == "dobrk" else Cnt)()
@@ -399,7 +423,8 @@ def static_no_claim(prog):
         return "setx inside a comprehension form in a class body (CPython forbids the walrus there)"
     if any(has(c[2], "setx") for c in clauses if c[0] == "for"):
         return "setx inside an iterable of the form (CPython forbids the walrus in comprehension iterables)"
-    if any(setx_targets(x) & own for x in subs):
+    inner_own = {n[1] for x in subs for n in nested_forms(x)}
+    if any(setx_targets(x) & (own | inner_own) for x in subs):
         return "setx to an iteration or :setv variable of the form"
     return None
 
@@ -434,7 +459,7 @@ def reference(prog, first_eager=False):
 # ------------------------------------------------------------------ static features
 
 def exprs_of_clause(c):
-    return [c[2]] if c[0] in ("for", "setv") else [c[1]]
+    return [c[2]] if c[0] in ("for", "setv", "dosetv") else [c[1]]
 
 
 def reads(e, names):
@@ -445,6 +470,19 @@ def reads(e, names):
     if isinstance(e, list):
         return any(reads(a, names) for a in e)
     return False
+
+
+def nested_forms(e):
+    out = []
+    if isinstance(e, tuple):
+        if e and e[0] == "ncomp":
+            out.append(e)
+        for a in e[1:]:
+            out += nested_forms(a)
+    elif isinstance(e, list):
+        for a in e:
+            out += nested_forms(a)
+    return out
 
 
 def has(e, tag):
@@ -465,7 +503,9 @@ def features(prog):
     if form[0] == "comp":
         final = form[3]
         subs = [x for c in clauses for x in exprs_of_clause(c)] + list(final[1:])
-        f["has_do"] = any(c[0] in ("do", "dobrk", "docnt") for c in clauses)
+        f["has_do"] = any(c[0] in ("do", "dobrk", "docnt", "dosetv") for c in clauses)
+        f["do_setv_own"] = any(c[0] == "dosetv" for c in clauses)
+        f["nested_setx"] = any(has(n[3], "setx") for x in subs for n in nested_forms(x))
         f["has_stmt_subform"] = any(has(x, "stm") for x in subs)
         f["unpack_final"] = final[0] in ("star", "dstar")
         f["genfn"] = bool(clauses) and (f["has_do"] or f["has_stmt_subform"] or f["unpack_final"])
@@ -570,6 +610,11 @@ class Gen:
                 out.append(("setv", x, self.expr(vis, 0, setx_ok, stm_p)))
                 vis.append(x)
             else:
+                bound = [n for c in out if c[0] in ("for", "setv") for n in target_names(c[1])]
+                if bound and r.random() < 0.2:
+                    # a variable of the form reassigned in a :do body
+                    out.append(("dosetv", r.choice(bound), ("n", r.randint(5, 9))))
+                    continue
                 if is_for and r.random() < 0.3 and any(c[0] == "for" for c in out):
                     out.append((r.choice(["dobrk", "docnt"]), self.cond(vis, 0, False)))
                 else:
@@ -614,6 +659,11 @@ class Gen:
             if stm_p and r.random() < 0.6:
                 it = ("stm", self.skey(), it)          # the unpacked iterable leaves statements behind
             final = ("star", it)
+        elif kind in ("lfor", "gfor") and r.random() < 0.15:
+            # a nested form as the value, with a setx that has to reach the enclosing scope
+            ix = r.choice([n for n in OWN if n not in vis] or list(OWN))
+            body = ("setx", r.choice(SETX), ("v", self.key(), ix)) if r.random() < 0.7 else ("v", self.key(), ix)
+            final = ("val", ("ncomp", ix, r.randint(1, 2), body))
         else:
             final = ("val", self.expr(vis, 0, setx_ok, stm_p))
         return (scope, init, ("comp", kind, cl, final), kind == "gfor" and r.random() < 0.7)
